@@ -1,5 +1,6 @@
 """C19: customer order references are unique, valid and round-trip (OrderRefs.tla)."""
 import os
+from unittest import mock
 import sys
 import json
 import time
@@ -50,13 +51,13 @@ def run_check(tier, seed):
             pass
         strategies.append(S(market_filter={}, name=n))
     # second instance (same strategy names) that receives the references from the "exchange"
-    def second_instance():
+    def second_instance(only=None):
         sts = Strategies()
-        for n in names:
+        for n in (names if only is None else only):
             class S(BaseStrategy):
                 pass
             s2 = S(market_filter={}, name=n)
-            sts._strategies.append(s2)
+            sts(s2, None, mock.Mock())          # the way add_strategy registers it
         return sts
     cases, all_ids = [], []
     client = clients.BetfairClient(betting_client=None) if False else clients.SimulatedClient(username="c1")
@@ -69,8 +70,10 @@ def run_check(tier, seed):
         def log_control(self, ev):
             pass
 
-    def resolve(refs_batch, sts):
-        """push the references through process_current_orders of a fresh instance"""
+    def resolve(refs_batch, sts, later=()):
+        """push the references through process_current_orders of a fresh instance; `later`: strategies that are
+        added only after a first order-stream update has been processed (updates for them are ignored until
+        then and adopted afterwards)"""
         fl = FakeFlumine()
 
         def add_market(market_id, market_book):
@@ -91,6 +94,12 @@ def run_check(tier, seed):
         class Ev:
             event = [co]
         process_current_orders(fl.markets, sts, Ev, lambda e: None, add_market)
+        if later:
+            for n in later:
+                class S2(BaseStrategy):
+                    pass
+                sts(S2(market_filter={}, name=n), None, mock.Mock())
+            process_current_orders(fl.markets, sts, Ev, lambda e: None, add_market)
         out = {}
         mk = fl.markets.markets.get("1.999")
         if mk is not None:
@@ -114,7 +123,10 @@ def run_check(tier, seed):
                             batch.append((order.customer_order_ref, 100 + len(batch) - 0))
                             refs.append((order, st, sep))
                             all_ids.append(order.id)
-                    res = resolve(batch, second_instance())
+                    if seps_valid.index(sep) % 2:      # the second instance gets half of its strategies after the first update
+                        res = resolve(batch, second_instance(only=names[::2]), later=names[1::2])
+                    else:
+                        res = resolve(batch, second_instance())
                     recs = []
                     for k, (order, st, sp) in enumerate(refs):
                         got = res.get(str(900000 + k), ("<not adopted>", ""))
@@ -146,9 +158,21 @@ def run_check(tier, seed):
         sdt = SimulatedDateTime()
         sdt.__enter__()
         sdt(datetime.datetime(2023, 11, 14, 22, 0, 0))
+        # as in a simulation run: config.simulated set, the clock frozen at the publish time of the update being
+        # processed, moving forward within a market and BACK when the next market (or event group) starts
+        # again at times already visited
+        from flumine import config as fconfig
+        saved_sim = fconfig.simulated
+        fconfig.simulated = True
         try:
             make(n_loop // 2, ids)
+            t1 = datetime.datetime(2023, 11, 14, 22, 0, 0)
+            for rep in range(3):
+                for step in (0, 1, 250, 1000, 1, 0):
+                    sdt(t1 + datetime.timedelta(milliseconds=step))
+                    make(40, ids)
         finally:
+            fconfig.simulated = saved_sim
             sdt.__exit__(None, None, None)
         cases.append({"kind": "unique", "id": "unique_all", "ids": [limbs(i) for i in ids]})
         # separators: every 1-char string over ASCII + samples, lengths 0 and 2
